@@ -111,7 +111,7 @@ class C08(Driver):
         if r.random() < 0.12:
             # many fibers of the main thread parked on one thread channel; a producer thread serves them all while
             # the main thread is away from its event loop (blocking sleep): the hand-offs arrive in one burst
-            n = r.choice([5, 17, 18, 33, 40, 65, 70, 100])
+            n = r.choice([5, 17, 18, 33, 40, 65, 70, 100, 129, 257, 300])
             caps.append(r.choice([0, 0, 1, 8]))
             bch = len(caps) - 1
             threads[0]["ops"].insert(r.randint(0, len(threads[0]["ops"])), {"op": "burst-take", "ch": bch, "n": n, "away_ms": r.choice([5, 20])})
